@@ -836,56 +836,7 @@ func ruleNormaliseFirst(c *Ctx, r *R) {
 			r.undecided(name+"|parallelism", fn.Pos(), "parallelism parameter not found")
 			continue
 		}
-		// the parameter may be spilled to a cell (captured) or used directly
-		var uses []ssa.Instruction
-		for _, ref := range *par.Referrers() {
-			uses = append(uses, ref)
-		}
-		good := true
-		why := ""
-		defaulted := false
-		for _, u := range uses {
-			switch x := u.(type) {
-			case *ssa.DebugRef:
-			case *ssa.Phi:
-				defaulted = true
-			case *ssa.BinOp:
-				if !(x.X == ssa.Value(par) && isConstInt(x.Y, 0) && (x.Op == token.LEQ || x.Op == token.LSS || x.Op == token.GTR || x.Op == token.GEQ)) {
-					good = false
-					why = "the raw argument is used in " + x.String()
-				}
-			case *ssa.Store:
-				// spilled: accept only when the first thing done with the variable is the default test
-				if cell, ok := x.Addr.(*ssa.Alloc); ok {
-					firstUse := ""
-					for _, b := range fn.Blocks {
-						for _, in := range b.Instrs {
-							if ld, ok := in.(*ssa.UnOp); ok && ld.Op == token.MUL && ld.X == ssa.Value(cell) && firstUse == "" && ld.Referrers() != nil {
-								for _, r2 := range *ld.Referrers() {
-									if bo, ok := r2.(*ssa.BinOp); ok && isConstInt(bo.Y, 0) {
-										firstUse = "default-test"
-									} else if _, isDbg := r2.(*ssa.DebugRef); !isDbg && firstUse == "" {
-										firstUse = r2.String()
-									}
-								}
-							}
-						}
-						if firstUse != "" {
-							break
-						}
-					}
-					if firstUse != "default-test" {
-						good = false
-						why = "the raw argument is first used in " + firstUse
-					} else {
-						defaulted = true
-					}
-				}
-			default:
-				good = false
-				why = "the raw argument is used by " + u.String()
-			}
-		}
+		good, defaulted, why := rawParamDefaultedFirst(fn, par, 0)
 		r.ok(good && defaulted, name+"|raw-parallelism", fn.Pos(), "parallelism must be defaulted (<= 0 → GOMAXPROCS) before anything else looks at it: "+why)
 	}
 }
@@ -983,4 +934,98 @@ func ruleCtxArmReturnsErr(c *Ctx, r *R, rels ...string) {
 			}
 		}
 	}
+}
+
+// rawParamDefaultedFirst: the only things done with the raw int parameter par of fn are the default test (<= 0 and friends),
+// merging it with its default, or handing it to an in-package normaliser whose own parameter is treated that way.
+func rawParamDefaultedFirst(fn *ssa.Function, par *ssa.Parameter, depth int) (good, defaulted bool, why string) {
+	good = true
+	if par.Referrers() == nil {
+		return false, false, "the parameter is unused"
+	}
+	// the parameter may be spilled to a cell (captured) or used directly
+	var uses []ssa.Instruction
+	for _, ref := range *par.Referrers() {
+		uses = append(uses, ref)
+	}
+	for _, u := range uses {
+		switch x := u.(type) {
+		case *ssa.DebugRef:
+		case *ssa.Phi:
+			defaulted = true
+		case *ssa.BinOp:
+			if !(x.X == ssa.Value(par) && isConstInt(x.Y, 0) && (x.Op == token.LEQ || x.Op == token.LSS || x.Op == token.GTR || x.Op == token.GEQ)) {
+				good = false
+				why = "the raw argument is used in " + x.String()
+			}
+		case *ssa.Store:
+			// spilled: accept only when the first thing done with the variable is the default test
+			if cell, ok := x.Addr.(*ssa.Alloc); ok {
+				firstUse := ""
+				for _, b := range fn.Blocks {
+					for _, in := range b.Instrs {
+						if ld, ok := in.(*ssa.UnOp); ok && ld.Op == token.MUL && ld.X == ssa.Value(cell) && firstUse == "" && ld.Referrers() != nil {
+							for _, r2 := range *ld.Referrers() {
+								if bo, ok := r2.(*ssa.BinOp); ok && isConstInt(bo.Y, 0) {
+									firstUse = "default-test"
+								} else if hc, isCall := r2.(*ssa.Call); isCall && firstUse == "" && depth < 2 {
+									// handed, first thing, to a normaliser of the package
+									if cal := staticCallee(&hc.Call); cal != nil && cal.Blocks != nil && rootFn(origin(cal)).Pkg == rootFn(fn).Pkg {
+										o := origin(cal)
+										for ai, a := range hc.Call.Args {
+											if a == ssa.Value(ld) && ai < len(o.Params) {
+												if g2, d2, _ := rawParamDefaultedFirst(o, o.Params[ai], depth+1); g2 && d2 {
+													firstUse = "default-test"
+												}
+											}
+										}
+									}
+									if firstUse == "" {
+										firstUse = r2.String()
+									}
+								} else if _, isDbg := r2.(*ssa.DebugRef); !isDbg && firstUse == "" {
+									firstUse = r2.String()
+								}
+							}
+						}
+					}
+					if firstUse != "" {
+						break
+					}
+				}
+				if firstUse != "default-test" {
+					good = false
+					why = "the raw argument is first used in " + firstUse
+				} else {
+					defaulted = true
+				}
+			}
+		case *ssa.Call:
+			// workerAndBufferLimits(parallelism, bufferSize): the normalisation lives in a helper
+			handled := false
+			if cal := staticCallee(&x.Call); cal != nil && cal.Blocks != nil && depth < 2 && rootFn(origin(cal)).Pkg == rootFn(fn).Pkg {
+				o := origin(cal)
+				for ai, a := range x.Call.Args {
+					if a == ssa.Value(par) && ai < len(o.Params) {
+						g2, d2, w2 := rawParamDefaultedFirst(o, o.Params[ai], depth+1)
+						handled = true
+						if !g2 || !d2 {
+							good = false
+							why = "handed to " + funcShort(o) + ", where " + w2
+						} else {
+							defaulted = true
+						}
+					}
+				}
+			}
+			if !handled {
+				good = false
+				why = "the raw argument is used by " + u.String()
+			}
+		default:
+			good = false
+			why = "the raw argument is used by " + u.String()
+		}
+	}
+	return good, defaulted, why
 }
